@@ -1357,7 +1357,7 @@ impl Gc {
                 header as *const GcHeader as usize,
                 header.owner,
                 header.freed.get(),
-                std::any::type_name::<T>().ends_with("thread::Thread"),
+                std::any::type_name::<T>(),
             ) {
                 return seen;
             }
